@@ -374,12 +374,23 @@ def main():
         for nm, _ in ctx(ofc).meta.enums['PartialToken']:
             units.append(('display', ('partial', nm), ofc, timeout_ms, seed))
         units.append(('display', ('node',), ofc, timeout_ms, seed))
+    import kani_run
+    kh = kani_run.start(tag='C01') if not os.environ.get('C01_ONLY') else None
     only = os.environ.get('C01_ONLY')
     if only:
         units = [x for x in units if x[0] in only.split(',')]
     random.Random(seed).shuffle(units)
     results = checklib.run_units(checklib.safe_worker(unit), units)
-    checklib.finish(PID, results, t0=t0, replay_fn=replay_ce,
+    kres = kani_run.join(kh) if kh is not None else dict(ran=False, reason='unit filter active' if only else 'not against /repo')
+    if kres.get('ran'):
+        kr = checklib.UnitResult('kani kernel harnesses')
+        kr.obligations = kres.get('total') or 0
+        kr.discharged = kres.get('verified') or 0
+        kr.samples.append(dict(unit='Kani: impl EvalexprInt for i64 / DefaultNumericTypes kernels at full width, panic-freedom + i128 specifications', harnesses=kres.get('harnesses')))
+        if not kres.get('ok'):
+            kr.inconclusive.append('Kani did not verify every kernel harness: %s' % {k: kres.get(k) for k in ('exit', 'verified', 'failed', 'total', 'failed_checks', 'vacuous_cover')})
+        results.append(kr)
+    checklib.finish(PID, results, t0=t0, replay_fn=replay_ce, extra=dict(kani=kres),
                     rule='units: %d builtins x %d argument shapes; %d operator variants x argument vectors of length 0..3 x 3 context kinds; all %d token-kind sequences <= %d '
                          'tokens through the tree builder; tokenizer on %d templates with up to %d completely free characters; Display of every Value shape / error variant / '
                          'operator / token; each with overflow checks on and off; an obligation is one path end: either not a panic point, or a panic point proved infeasible'
